@@ -33,7 +33,7 @@ BUDGET = {
 
 @st.composite
 def cases(draw):
-    spec = draw(models.model_specs(names=draw(st.sampled_from(["ident", "free"])), n_state=(1, 4), n_control=(0, 2),
+    spec = draw(models.model_specs(calib_types=models.CALIB_TYPES, names=draw(st.sampled_from(["ident", "free"])), n_state=(1, 4), n_control=(0, 2),
                                    n_calib=(0, 2), n_sensors=(1, 3), n_readings=(1, 4), depth=2, sensor_depth=2))
     n = len(spec["state"])
     ups = []
